@@ -69,6 +69,14 @@ pub fn run_line(line: &str) -> String {
                 let seed: u64 = it.next().and_then(|x| x.parse().ok()).unwrap_or(0);
                 let size: u32 = it.next().and_then(|x| x.parse().ok()).unwrap_or(12);
                 vec![("main.rssl".into(), crate::pgen::generate(seed, size))]
+            } else if let Some(spec) = w[1].strip_prefix("probe:") {
+                // a reserved name of the HLSL exporter declared in one position and used (the programs of C15)
+                let (pos, name) = match spec.split_once(':') { Some(x) => x, None => return "BAD-CASE".into() };
+                match crate::c15::probe_source(pos, name) { Some(t) => vec![("main.rssl".into(), t)], None => return "BAD-CASE".into() }
+            } else if let Some(seed) = w[1].strip_prefix("clash:") {
+                vec![("main.rssl".into(), crate::c15::clash_program(seed.parse().unwrap_or(0)))]
+            } else if let Some(seed) = w[1].strip_prefix("shadow:") {
+                vec![("main.rssl".into(), crate::c15::shadow_program(seed.parse().unwrap_or(0)))]
             } else if let Some(name) = w[1].strip_prefix("c14:") {
                 match crate::c14::program_files(name) { Some(f) => f, None => return "BAD-CASE".into() }
             } else if let Some(name) = w[1].strip_prefix("c07:") {
@@ -96,6 +104,13 @@ pub fn gen_cases(seed: u64, n: usize, _thorough: bool) -> Vec<String> {
     for name in crate::c14::program_names() { out.push(format!("S c14:{}", name)); }
     for name in ["names", "groups", "globals", "templates"] { out.push(format!("S c07:{}", name)); }
     for _ in 0..(4 * n) { out.push(format!("S gen:{}:{}", rng.below(1 << 40), rng.range(4, 24))); }
+    // names the exporter has to change: every reserved name in every declaration position (a sample per run, all of
+    // them in the thorough tier), symbols of one scope that want the same name, shadowing names across namespaces
+    for pos in crate::c15::probe_positions() {
+        for r in rssl::hlsl::verif::RESERVED_NAMES { if _thorough || rng.chance(1, 12) { out.push(format!("S probe:{}:{}", pos, r)); } }
+    }
+    for _ in 0..n { out.push(format!("S clash:{}", rng.below(1 << 40))); }
+    for _ in 0..n / 2 { out.push(format!("S shadow:{}", rng.below(1 << 40))); }
     for _ in 0..n {
         let nd = rng.range(0, 7) as usize;
         let mut decls: Vec<crate::c06::Decl> = (0..nd).map(|_| crate::c06::gen_decl(&mut rng, false)).collect();
